@@ -8,6 +8,8 @@ compared with the model.
 """
 import re
 
+import asyncio
+
 from aiortc import RTCSessionDescription
 from aiortc.exceptions import InvalidStateError
 from vt.enumcheck import Tally, pmap, result
@@ -44,7 +46,7 @@ class Model:
 
     def enabled(self, who, op, variant=None):
         me, other = self.p[who], self.p["B" if who == "A" else "A"]
-        if op in ("createOffer", "createAnswer", "setLocalImplicit", "close"):
+        if op in ("createOffer", "createAnswer", "setLocalImplicit", "close", "closeBegin"):
             return True
         if op == "setLocalOffer":
             return me.offer is not None
@@ -62,7 +64,7 @@ class Model:
         """Returns (set of allowed outcome classes, expected state after success or None if the state is left open)."""
         me, other = self.p[who], self.p["B" if who == "A" else "A"]
         s = me.state
-        if op == "close":
+        if op in ("close", "closeBegin"):
             me.state = "closed"
             return {OK}, "closed"
         if op == "addMedia":
@@ -187,6 +189,7 @@ def run_history(hist):
             pcs[k].on("signalingstatechange", lambda k=k: events[k].append(pcs[k].signalingState))
         art = {"A": {}, "B": {}}
         model = Model()
+        in_progress = []
         for i, (who, op, variant) in enumerate(hist):
             pc = pcs[who]
             other = "B" if who == "A" else "A"
@@ -226,6 +229,15 @@ def run_history(hist):
                     w.run(pc.setRemoteDescription(damage(base, variant)))
                 elif op == "close":
                     w.run(pc.close())
+                elif op == "closeBegin":
+                    # close() is started and left in progress (suspended wherever it first has to wait): the calls that
+                    # follow in the history are made by "another task" while it is still running
+                    t = w.loop.create_task(pc.close())
+                    for _ in range(1000):
+                        if t.done() or pc.signalingState == "closed":
+                            break
+                        w.loop.step()
+                    in_progress.append(t)
                 elif op == "addMedia":
                     pc.addTransceiver("video", direction="sendrecv")
             except InvalidStateError as e:
@@ -268,9 +280,21 @@ def run_history(hist):
                         who, op, before[0], after[0]), i)
             if model.p[who].state == "closed" and after[0] != "closed":
                 return ("state/closed-not-absorbing", "%s.%s: signalingState %s after close" % (who, op, after[0]), i)
+        for t in in_progress:
+            if not t.done():
+                STATS["close-still-in-progress-during-next-call"] = STATS.get("close-still-in-progress-during-next-call", 0) + 1
+            w.run(asyncio.wait_for(t, 60))
+            if t.exception() is not None:
+                return ("call/unexpected-exception", "the close() left in progress raised %r" % t.exception(), len(hist) - 1)
+        for k in "AB":
+            if model.p[k].state == "closed" and pcs[k].signalingState != "closed":
+                return ("state/closed-not-absorbing", "%s: signalingState %s once close() has completed" % (k, pcs[k].signalingState), len(hist) - 1)
         return None
     finally:
         w.close()
+
+
+STATS = {}
 
 
 # ----------------------------------------------------------------------------- enumerating the tree on the model
@@ -332,10 +356,31 @@ def histories(depth, firsts=None, prefix=()):
     return [list(prefix) + h for h in out]
 
 
+def window_histories(depth, firsts, prefix):
+    """close() in progress: every history of `depth` enabled calls, then close() STARTED on either peer, then every enabled
+    call on that same peer (made while the close is still running)."""
+    out = []
+    for h in histories(depth, firsts, prefix):
+        m = Model()
+        for who, op, variant in h:
+            m.apply(who, op)
+        for who in "AB":
+            if m.p[who].state == "closed":
+                continue
+            for sym in symbols():
+                if sym[0] == who and m.enabled(*sym):
+                    out.append(h + [(who, "closeBegin", None), sym])
+    return out
+
+
 def tree_task(task):
     depth, firsts, pname = task
     T = Tally()
-    hs = histories(depth, firsts, PREFIXES[pname])
+    STATS.clear()
+    if pname.endswith("+window"):
+        hs = window_histories(depth, firsts, PREFIXES[pname[:-7]])
+    else:
+        hs = histories(depth, firsts, PREFIXES[pname])
     n = 0
     shard = firsts[0] + firsts[1] if firsts else 0
     for i, h in enumerate(hs):
@@ -349,6 +394,8 @@ def tree_task(task):
     T.case(None, n)
     T.transitions = n * depth
     T.count("histories", n)
+    for k, v in STATS.items():
+        T.count(k, v)
     if shard == 0 and hs:
         T.sample(dict(kind="history", start=pname, depth=depth, example=[list(x) for x in hs[len(hs) // 2]]), limit=3)
     return T
@@ -361,6 +408,9 @@ def run(tier, seed):
     for pname in PREFIXES:
         if pname != "initial":
             tasks += [(depth - 2, (i, j), pname) for i in range(nsym) for j in range(nsym)]
+    # close() in progress: depth-3 (thorough: 4) histories from every start state, then close() started, then one more call
+    for pname in PREFIXES:
+        tasks += [(depth - 2 if pname == "initial" else depth - 3, (i, j), pname + "+window") for i in range(nsym) for j in range(nsym)]
     total = pmap("props.c14", "tree_task", tasks, seed=seed)
     return result(
         PID, total,
@@ -372,7 +422,9 @@ def run(tier, seed):
              "on a fresh pair of real RTCPeerConnections (A: audio track + data channel, B: audio track) and after EVERY call the "
              "outcome class (ok / InvalidStateError / ValueError), signalingState, signalingstatechange events and - after a "
              "failure - unchanged signalingState / localDescription / remoteDescription are compared with a JSEP reference table. "
-             "states = histories (no merging: hidden implementation state is not in an abstract key)" % (depth, depth),
+             "Plus, from every start state, every history of length %d-2 / %d-3 followed by close() STARTED on either peer (run to its "
+             "first wait, left in progress) and then every enabled call on that peer: it must behave as after a completed close. "
+             "states = histories (no merging: hidden implementation state is not in an abstract key)" % (depth, depth, depth, depth),
         assumptions=["fake ICE (aioice Connection replaced); createOffer while a remote offer is pending is left unconstrained",
                      "artefacts from an earlier negotiation round (stale) may be accepted or rejected with ValueError"],
         states=total.evaluations)
